@@ -796,6 +796,10 @@ def correspond(ctx):
         rv = real_version(t)
         if (vm if vm != "ok n" else "ok none") != rv:
             dis.append({"stream": "get_report_version", "input": {"stream": "version", "text": cps(t), "fault": origin}, "model": vm[:200], "impl": rv[:200]})
+        if rv.startswith("real get_report_version does not"):
+            # direct oracle of "reading back yields the same version": whatever the document says is returned
+            fails.append({"input": {"stream": "version", "text": cps(t), "fault": origin}, "observed": rv,
+                          "required": "ReportReader.get_report_version(text) == json.loads(text)['version']"})
     return {
         "evaluations": evals, "distinct_nontrivial": len(nontrivial),
         "rule": "dumps on every code point 0..0x2ff, every 0x101-th up to 0x10ffff, surrogate/plane boundaries and random strings; "
